@@ -143,6 +143,10 @@ func runTick(seed int64, n int, dir string) {
 		case 4:
 			return int64(g.Intn(2001) - 1000)
 		case 5: // out of range
+			if g.Intn(5) == 0 { // the int64 / int32 boundaries
+				o.Count("class.tick.int-boundary")
+				return []int64{1<<63 - 1, -1 << 63, 1<<63 - 2, -1<<63 + 1, 1 << 31, -1 << 31, 1<<31 - 1, 1 << 32, -1<<32 - 1, 1 << 53}[g.Intn(10)]
+			}
 			if g.Intn(2) == 0 {
 				return tf.maxTick + 1 + g.r.Int63n(1000000)
 			}
@@ -186,6 +190,10 @@ func runTick(seed int64, n int, dir string) {
 			switch {
 			case err != nil || g.Intn(10) == 0:
 				sp = g.randBits(1 + g.Intn(200))
+				if g.Intn(4) == 0 { // up to (and beyond) the 1024 bits of BigDec
+					sp = g.randBits(1 + g.Intn(1100))
+					o.Count("class.sp2t.huge")
+				}
 			default:
 				sp = new(big.Int).Add(base, big.NewInt(int64(g.Intn(5)-2)))
 				if g.Intn(3) == 0 { // strictly inside the bucket
@@ -238,6 +246,10 @@ func runTick(seed int64, n int, dir string) {
 					p = new(big.Int).Add(pp.BigInt(), big.NewInt(int64(g.Intn(5)-2)))
 				}
 			}
+			if g.Intn(40) == 0 {
+				p = g.randBits(1 + g.Intn(1100))
+				o.Count("class.p2t.huge")
+			}
 			if g.Intn(15) == 0 {
 				p.Neg(p)
 			}
@@ -259,10 +271,28 @@ func runTick(seed int64, n int, dir string) {
 			if g.Intn(10) == 0 {
 				sp = int64(1 + g.Intn(5000))
 			}
-			r, err := clmath.RoundDownTickToSpacing(t, sp)
+			weird := false
+			if g.Intn(12) == 0 { // spacing boundaries: zero (division by zero), negative, beyond every tick, int32/int64 limits
+				sp = []int64{0, -1, -10, 1 << 31, 1 << 32, 1 << 62, 1<<63 - 1, tf.maxTick, tf.maxTick + 1, -tf.minInitV2, -tf.minInitV2 + 1}[g.Intn(11)]
+				weird = sp <= 0 || sp > 1<<62
+				if t > 1<<40 || t < -(1<<40) { // keep |t| + |spacing| inside int64: Go wraps around there (e.g. (MinInt64, MaxInt64) -> 2), the model's Int does not
+					t = tf.minInitV2 + g.r.Int63n(tf.maxTick-tf.minInitV2+1)
+				}
+				o.Count("class.spacing.boundary")
+			}
+			var r int64
+			var err error
+			if !catch(func() { r, err = clmath.RoundDownTickToSpacing(t, sp) }) {
+				err = fmt.Errorf("panic")
+				if sp != 0 {
+					o.Fail("round:panic:nonzero-spacing", fmt.Sprint(t, sp))
+				}
+			}
 			o.Emit(fmt.Sprintf("tick round %d %d", t, sp), obsErr(err, big.NewInt(r)), true)
 			o.Count("op.round")
-			if err == nil {
+			if weird {
+				// outside the documented domain (spacing is a positive pool parameter): model comparison only
+			} else if err == nil {
 				if r > t || r <= t-sp || r%sp != 0 || r > tf.maxTick || r < tf.minInitV2 {
 					o.Fail("round:spec", fmt.Sprint(t, sp, r))
 				}
